@@ -71,7 +71,7 @@ func ApplyPackFilter(ff api.FilesetPackFilter, fmeta *fs.Metadata) error {
 				},
 			)
 		}
-	} else if !keep {
+	} else if !keep && (fmeta.Type == fs.Type_Device || fmeta.Type == fs.Type_CharDevice) {
 		fmeta.Type = fs.Type_Invalid
 	}
 	return nil
@@ -139,7 +139,7 @@ func ApplyUnpackFilter(ff api.FilesetUnpackFilter, fmeta *fs.Metadata) error {
 				},
 			)
 		}
-	} else if !follow {
+	} else if !follow && (fmeta.Type == fs.Type_Device || fmeta.Type == fs.Type_CharDevice) {
 		fmeta.Type = fs.Type_Invalid
 	}
 	return nil
